@@ -255,7 +255,24 @@ def run():
         print("VIOLATION property=%s replay=%s" % (prop, rp))
         log("  ", key, json.dumps(payload, default=str, ensure_ascii=False)[:500])
         reported += 1
+    # E1 companion: ParamRef / ParamExpr / ParamCond evaluation against docs/parametric.md for every 64-bit value (Kani)
+    from . import parser_props as pp
+    from .e1check import E1Outcome, run_parser_groups, summarize
+    e1o = E1Outcome()
+    ps = pp.specs("grammar", "c05", "c05_fail")
+    if tr == "quick":
+        ps = [x for x in ps if "bitcount" not in x["name"]]
+    run_parser_groups(prop, "c05", ["grammar"], ps, e1o, harness_timeout_s=900)
+    for v in e1o.violations:
+        if v.get("known"):
+            continue
+        if v.get("replay"):
+            print("VIOLATION property=%s replay=%s" % (prop, v["replay"]))
+            reported += 1
+    inconclusive += e1o.inconclusive
+    e1s = summarize(e1o)
     cov = dict(programs=stats["decided"], disagreements_checked=len(cands) + len(viol), samples=samples or [dict(note="none")], tier=tr, cases=len(cases),
+               e1_param_eval=dict(harnesses=e1s["per_harness"], covers="%d/%d" % (e1s["covers_satisfied"], e1s["covers_total"]), solver_s=e1s["solver_s"]),
                decided=stats["decided"], skipped_too_large=stats["skipped"], nullable_tables_checked=stats["nullable_checked"], queries=stats["queries"],
                solver_s=round(stats["solver_s"], 2), vacuity_twins="%d/%d sat" % (stats["twins_sat"], stats["twins"]),
                functions_encoded=["lark/lexer.rs, lark/parser.rs, lark/compiler.rs do_atom/do_expr/do_expansions", "grammar_builder.rs select/join/optional/one_or_more/zero_or_more/repeat",
